@@ -233,21 +233,36 @@ func NewOrderExpr(scanner parser.Scanner, a, key Expr) Expr {
 		func(ctx context.Context, a, less Value, local Scope) (Value, error) {
 			if x, ok := a.(Set); ok {
 				if l, ok := less.(Closure); ok {
+					// The comparator cannot return an error to sort.Sort: keep the first one.
+					var cmpErr error
 					values, err := OrderBy(x,
 						func(value Value) (Value, error) {
 							return value, nil
 						},
 						func(a, b Value) bool {
+							if cmpErr != nil {
+								return false
+							}
 							c, err := SetCall(ctx, l, a)
 							if err != nil {
-								panic(err)
+								cmpErr = err
+								return false
 							}
-							less, err := SetCall(ctx, c.(Closure), b)
+							f, is := c.(Set)
+							if !is {
+								cmpErr = errors.Errorf("'order' rhs must take two arguments, one at a time; got %s", ValueTypeAsString(c))
+								return false
+							}
+							less, err := SetCall(ctx, f, b)
 							if err != nil {
-								panic(err)
+								cmpErr = err
+								return false
 							}
 							return less.IsTrue()
 						})
+					if err == nil {
+						err = cmpErr
+					}
 					if err != nil {
 						return nil, err
 					}
